@@ -205,18 +205,32 @@ impl<K: Hash + PartialEq + Eq + core::fmt::Debug> SliceCache<K> {
     fn remove_range(&mut self, range_to_remove: &Range) -> usize {
         let mut removed = 0;
 
-        while let Some(back) = self.insertions.back() {
-            let range = self
-                .indexes
-                .get(back)
-                .expect("if in insertion, must be in indexes");
-            if range_to_remove.overlaps(&range) {
-                self.indexes.remove(back).expect("must be found");
-                self.insertions.pop_back().expect("must be found");
-                removed += 1;
-            } else {
+        loop {
+            // Zero-length entries occupy no storage and overlap nothing: look past them to the
+            // oldest entry that does occupy storage. If that one has to go, the zero-length
+            // entries older than it go with it, so that eviction stays first-in-first-out.
+            let mut to_remove = 0;
+            for (i, key) in self.insertions.iter().rev().enumerate() {
+                let range = self
+                    .indexes
+                    .get(key)
+                    .expect("if in insertion, must be in indexes");
+                if range.begin() == range.end() {
+                    continue;
+                }
+                if range_to_remove.overlaps(range) {
+                    to_remove = i + 1;
+                }
                 break;
             }
+            if to_remove == 0 {
+                break;
+            }
+            for _ in 0..to_remove {
+                let back = self.insertions.pop_back().expect("must be found");
+                self.indexes.remove(&back).expect("must be found");
+            }
+            removed += to_remove;
         }
         removed
     }
